@@ -405,6 +405,18 @@ class FileSystemStoreBackend(StoreBackendBase, StoreBackendMixin):
         if location == self.location:
             rm_subdirs(location)
         else:
+            # Delete the sub-directories (the cached results of a function)
+            # before the files that describe them (its func_code.py): an
+            # interruption must never leave results without the code that
+            # computed them, they would later be served under different code.
+            try:
+                names = os.listdir(location)
+            except OSError:
+                names = []
+            for name in names:
+                path = os.path.join(location, name)
+                if os.path.isdir(path):
+                    shutil.rmtree(path, ignore_errors=True)
             shutil.rmtree(location, ignore_errors=True)
 
     def create_location(self, location):
